@@ -24,7 +24,7 @@ SHRINK = 'greedy'
 SHRINK_RUNS = 8
 TIME_BUDGET = {'quick': 170, 'thorough': 1700}
 CHILD = ['coop', 'swallow', 'idle_p', 'busy_p', 'finished', 'p_in_ctx', 'empty_ctx', 'dup_ctx', 'starting', 'swallow_in_ctx', 'busy_in_ctx']
-REQUIRED = {'quick': {'child:' + c: 15 for c in CHILD}, 'thorough': {'child:' + c: 150 for c in CHILD}}
+REQUIRED = {'quick': {'child:' + c: 15 for c in CHILD}, 'thorough': {'child:' + c: 60 for c in CHILD}}
 REQUIRED['quick'].update({'stop:sigterm': 40, 'stop:terminate': 40, 'stop:terminate_noforce': 15, 'live_children>=2': 40, 'stop:terminate_short': 15, 'sigterm_during_shutdown': 8})
 
 
